@@ -18,6 +18,18 @@ CHECKS = {
              "vectors as ASSUMEs, checked at setup and on every run of the trace spec); TLC. Inputs explored are mutations of sealed messages, not arbitrary forgeries.",
         technique="TLA+ system model (adversary operator algebra) checked by TLC; spec->code replay; code->spec trace validation with the standards transcribed in TLA+ as oracle",
     ),
+    "C10": dict(
+        category="model_checking",
+        text="Object-layer models shaped like the code (GcmObj, CcmObj with declared/undeclared lengths, AeadFsm for EAX/SIV/OCB/ChaCha20-Poly1305, "
+             "HashFsm with copy for 40 hash/XOF/MAC configurations) are model-checked exhaustively over every call sequence to a depth bound with "
+             "symbolic data (guards equal the documented diagram, TypeError leaves the object unchanged, terminal calls idempotent, MAC input equals "
+             "the standard's formatting); TLC-generated sequences are replayed on the real objects and every recorded step is judged by TLC "
+             "against the model (exception class, projected private state, outputs and tags equal to the one-shot computation).",
+        design_ref="DESIGN.md section 6, C10",
+        note="Trusted: TLC; the recorder's reading of private attributes; one-shot references computed by the library itself (their conformance to "
+             "the standards is decided by C01/C02/C03). Depth-bounded: all sequences up to depth 2-3 are replayed, deeper ones are sampled.",
+        technique="TLA+ object-layer state machines model-checked by TLC; spec->code replay of TLC behaviours; code->spec trace validation in TLC",
+    ),
 }
 
 NOT_APPLICABLE = {
